@@ -265,6 +265,9 @@ impl Explorer {
         for l in &e.locs {
             h = mix(h, l.val);
             h = mix(h, ((l.writer.0 as u64) << 32) | l.writer.1 as u64);
+            if l.weak_failed != 0 {
+                h = mix(h, 0x77ea_0000 | l.weak_failed as u64);
+            }
             for x in l.rel {
                 h = mix(h, x as u64);
             }
